@@ -321,26 +321,46 @@ def run(ctx, prog):
     # ---------------------------------------------------------------- R-INTRANGE
     rule = "R-INTRANGE"
     n = 0
-    for fn in prog.q("MsgPackDeserializer::readInteger")[:1]:
+    seen_sites = set()
+    for fn in sorted(prog.fns.values(), key=lambda f: f.key):
+        if not fn.cls.endswith("MsgPackDeserializer"):
+            continue
         for i, st in fn.calls():
             if not st["callee"]["q"].endswith("VariantData::setInteger"):
                 continue
+            sk = (fn.name, fn.loc(i), tuple(fn.d.get("targs") or ()))
+            if sk in seen_sites:
+                continue
+            seen_sites.add(sk)
+            a0 = fn.s(fn.strip(st["args"][0], casts=False))
+            while a0["k"] in P.TRANSPARENT:
+                a0 = fn.s(a0["c"][0])
+            if a0["k"] != "DeclRefExpr" or a0["ref"]["k"] != "local":
+                continue            # a constant or an expression (e.g. the fixint byte): nothing was truncated into a variable
+            dx = a0["ref"]["d"]
+            # the wide source the stored variable was truncated from
+            src = None
+            for j in fn.walk():
+                sj = fn.s(j)
+                if sj["k"] == "DeclStmt":
+                    for dd in sj["decls"]:
+                        if dd["d"] == dx and "init" in dd:
+                            src = fn.text(fn.strip(dd["init"], casts=True))
+            if src is None:
+                continue
             n += 1
-            a0 = fn.s(fn.strip(st["args"][0], casts=True))
             ok = False
             for cond, pol in fn.guards_of(i):
                 c = fn.s(fn.strip(cond, casts=True))
-                if c["k"] == "BinaryOperator" and c["op"] == "==" and pol is True:
-                    names = set()
-                    for x in c["c"]:
-                        sx = fn.s(fn.strip(x, casts=True))
-                        names.add(sx.get("ref", {}).get("n") or sx.get("m"))
-                    if a0.get("ref", {}).get("n") in names and (names & {"signedValue", "unsignedValue"}):
+                if c["k"] == "BinaryOperator" and ((c["op"] == "==" and pol is True) or (c["op"] == "!=" and pol is False)):
+                    sides = [fn.s(fn.strip(x, casts=True)) for x in c["c"]]
+                    texts = [fn.text(fn.strip(x, casts=True)) for x in c["c"]]
+                    if any(sx.get("ref", {}).get("d") == dx for sx in sides) and (src is None or src in texts):
                         ok = True
-            ctx.ob(rule, "readInteger: %s stored only if it survives truncation" % a0.get("ref", {}).get("n"), ok, fn.loc(i),
+            ctx.ob(rule, "%s: %s stored only if it survives truncation" % (fn.name, a0["ref"]["n"]), ok, fn.loc(i),
                    "setInteger dominated by truncated == original" if ok else
                    "an integer outside the configured range is stored truncated instead of becoming null")
-    ctx.floor(rule, "setInteger sites in readInteger", n, 2)
+    ctx.floor(rule, "setInteger sites of truncated integers in MsgPackDeserializer", n, 2)
 
     # ---------------------------------------------------------------- R-RAW
     rule = "R-RAW"
